@@ -151,7 +151,7 @@ def m_map(it, f, *its):
 
 
 def m_filter(it, f, seq):
-    return [x for x in it.iterate(seq) if it.truth(x if f is None else it.call(f, [x], {}))]
+    return [x for x in list(it.iterate(seq)) if it.truth(x if f is None else it.call(f, [x], {}))]
 
 
 def m_list(it, seq=()):
@@ -163,7 +163,7 @@ def m_tuple(it, seq=()):
 
 
 def m_set(it, seq=()):
-    xs = it.iterate(seq)
+    xs = list(it.iterate(seq))
     if any(isinstance(x, Sym) for x in xs):
         raise Unsupported("set of symbolic values")
     return set(xs)
@@ -175,32 +175,22 @@ def m_dict(it, *a, **k):
     if a and isinstance(a[0], PObj) and a[0].has_base:
         a = (a[0].base,) + a[1:]
     if a and not isinstance(a[0], (dict,)) and not hasattr(a[0], "keys"):
-        a = (it.iterate(a[0]),) + a[1:]
+        a = (list(it.iterate(a[0])),) + a[1:]
     return dict(*a, **k)
 
 
 def m_any(it, seq):
-    disj = []
-    for x in it.iterate(seq):
-        if isinstance(x, SBool):
-            disj.append(x.t)
-        elif isinstance(x, Opaque):
-            disj.append(py_truth(x.t))
-        elif it.truth(x):
+    for x in it.iterate(seq):  # lazy and short-circuiting like the builtin: the truth of every element is decided on the path
+        if it.truth(x):
             return True
-    return SBool(z3.Or(disj)) if disj else False
+    return False
 
 
 def m_all(it, seq):
-    conj = []
     for x in it.iterate(seq):
-        if isinstance(x, SBool):
-            conj.append(x.t)
-        elif isinstance(x, Opaque):
-            conj.append(py_truth(x.t))
-        elif not it.truth(x):
+        if not it.truth(x):
             return False
-    return SBool(z3.And(conj)) if conj else True
+    return True
 
 
 def m_abs(it, x):
@@ -284,7 +274,7 @@ def m_object_setattr(it, o, name, v):
 
 def m_min_max(fn):
     def m(it, *a, **k):
-        xs = it.iterate(a[0]) if len(a) == 1 else list(a)
+        xs = list(it.iterate(a[0])) if len(a) == 1 else list(a)
         if all(it.concrete(x) for x in xs) and not k:
             try:
                 return fn(xs)
@@ -372,7 +362,7 @@ def native_super_call(it, ns, args, kwargs):
         return ob
     if n == "__init__":
         if isinstance(o, PObj) and o.has_base and isinstance(o.base, list) and args:
-            o.base[:] = it.iterate(args[0])
+            o.base[:] = list(it.iterate(args[0]))
         return None
     if n in ("__eq__", "__ne__", "__lt__", "__gt__", "__le__", "__ge__", "__hash__", "__str__", "__repr__", "__format__"):
         if isinstance(o, PObj) and o.has_base:
